@@ -80,7 +80,11 @@ fn gen_case(seed: u64, i: u64, corpus: &[String], regr: &[String]) -> (String, S
         return ("deep-parens".into(), inputs::deep_parens(&mut r));
     }
     let base = &corpus[r.usize(corpus.len())];
-    match r.below(21) {
+    match r.below(25) {
+        21..=24 => {
+            let (s, how) = inputs::typed_program(&mut r);
+            (format!("types-{how}"), s)
+        }
         20 => {
             let (s, how) = inputs::numeric(&mut r, base);
             (format!("number-{how}"), s)
@@ -153,6 +157,30 @@ fn child(opts: &Opts) {
     };
     let b = qverif::run::builtins();
     let out = std::io::stdout();
+    if let Some(n) = arg("--types-debug") {
+        let mut hist: std::collections::BTreeMap<String, (u32, String)> = Default::default();
+        for i in 0..n.parse::<u64>().unwrap() {
+            let mut r = Rng::for_case(opts.seed ^ 0x77, i);
+            let (src, how) = inputs::typed_program(&mut r);
+            if how != "as-generated" {
+                continue;
+            }
+            let modules: HashMap<Vec<String>, String> = HashMap::new();
+            let out = match qverif::run::compile_source(&src, &modules, &b) {
+                Ok(_) => "ok".to_string(),
+                Err(e) => format!("{e:?}").chars().take(90).collect(),
+            };
+            let key: String = out.chars().take(60).collect();
+            let e = hist.entry(key).or_insert((0, src.clone()));
+            e.0 += 1;
+        }
+        let mut v: Vec<_> = hist.into_iter().collect();
+        v.sort_by_key(|(_, (n, _))| std::cmp::Reverse(*n));
+        for (k, (n, src)) in v.iter().take(25) {
+            println!("{n:5} {k}\n      e.g. {}", src.replace('\n', " ⏎ "));
+        }
+        return;
+    }
     if let Some(i) = arg("--show") {
         let corpus = corpus();
         let regr = regression();
@@ -301,9 +329,6 @@ fn main() {
     let mut model = Model::spawn(opts.model.as_ref().expect("--model"));
     let b = qverif::run::builtins();
 
-    // ---- string literals against the model (in-process) ------------------------------------------
-    strings::part_decode(&mut ev, &mut model, &opts);
-
     // ---- robustness search in a child process ----------------------------------------------------
     let corpus = corpus();
     let regr = regression();
@@ -361,6 +386,9 @@ fn main() {
                     ev.case(&src, !src.is_empty());
                     ev.hit(&format!("robust:stream:{stream}"));
                     let tag2 = rest.split(' ').next().unwrap_or("");
+                    if stream.starts_with("types-") {
+                        ev.hit(&format!("robust:types-stream:{}", match tag2 { "C" => rest.as_str(), "E" => "parse-error", _ => "violation" }));
+                    }
                     match tag2 {
                         "C" => ev.hit(&format!("robust:outcome:parse-ok:{}", rest.split(' ').nth(1).unwrap_or(""))),
                         "E" => {
@@ -402,7 +430,7 @@ fn main() {
                             ev.hit(&format!("robust:violation:{}", rest.split(' ').nth(1).unwrap_or("")));
                             let sig = violation_signature(&rest);
                             // shrink in-process (panics are caught; bounds are pure checks)
-                            let small = if ev.is_known(&sig) && ev.counters.get(&format!("robust:shrunk:{sig}")).is_some() {
+                            let small = if ev.counters.get(&format!("robust:shrunk:{sig}")).is_some() {
                                 src.clone()
                             } else {
                                 ev.hit(&format!("robust:shrunk:{sig}"));
@@ -501,6 +529,13 @@ fn main() {
                 break;
             }
         }
+    }
+    // ---- string literals against the model (in-process; after the search, and not at all when the
+    // search saw the process die: the same input class would take this process down too) ----------
+    if ev.counters.contains_key("robust:violation:crash") {
+        ev.hit("string:skipped-after-crash");
+    } else {
+        strings::part_decode(&mut ev, &mut model, &opts);
     }
     ev.set_extra("child_restarts", json!(restarts));
     ev.set_extra("model_requests", json!(model.requests));
